@@ -98,7 +98,7 @@ def assignments(names: Sequence[str], grid: Iterable[int]):
         yield dict(zip(names, vals))
 
 
-def eval_with_free(fn: Callable[[Evaluator], object], terms_by_dump: Dict[str, object], max_free: int = 6):
+def eval_with_free(fn: Callable[[Evaluator], object], terms_by_dump: Dict[str, object], max_free: int = 9):
     """Run fn(evaluator) for every valuation of the free boolean atoms it asks for.
     Yields (free_valuation, result)."""
     free_names: List[str] = []
@@ -126,11 +126,10 @@ def eval_with_free(fn: Callable[[Evaluator], object], terms_by_dump: Dict[str, o
 
 def predicate_table(expr: ast.AST, terms: Dict[str, str], grid=range(0, 4)):
     """terms: dump-of-term-expression -> short name. Returns list of (assignment-by-name, free, bool)."""
-    names = list(terms.values())
-    dumps = list(terms.keys())
+    names = sorted(set(terms.values()))
     rows = []
     for asg in assignments(names, grid):
-        tb = {d: asg[n] for d, n in zip(dumps, names)}
+        tb = {d: asg[n] for d, n in terms.items()}
         for free, val in eval_with_free(lambda ev: ev.truth(expr), tb):
             rows.append((asg, free, val))
     return rows
@@ -154,11 +153,10 @@ def taken_path(paths: List[flow.Path], ev: Evaluator) -> Optional[flow.Path]:
 
 def path_table(paths: List[flow.Path], terms: Dict[str, str], label: Callable[[flow.Path], str], grid=range(0, 4)):
     """For every assignment: which path is taken (conditions interpreted over the assignment) and its label."""
-    names = list(terms.values())
-    dumps = list(terms.keys())
+    names = sorted(set(terms.values()))
     rows = []
     for asg in assignments(names, grid):
-        tb = {d: asg[n] for d, n in zip(dumps, names)}
+        tb = {d: asg[n] for d, n in terms.items()}
 
         def run(ev):
             p = taken_path(paths, ev)
